@@ -234,7 +234,8 @@ func (c *checker) funcBatch(vs []vector, base int) {
 	}
 	refToks := make([][]string, len(plans))
 	for i, pl := range plans {
-		refToks[i] = tokens(pl.render(modeExplicit))
+		ref := pl.render(modeExplicit)
+		refToks[i] = tokens(pl.chunk(ref, splitFuncs(ref)))
 	}
 	for _, v := range vs {
 		c.vectors++
@@ -264,7 +265,7 @@ func (c *checker) funcBatch(vs []vector, base int) {
 				if !alive[i] {
 					continue
 				}
-				if ok1, d1 := c.accept(prelude + per[pl.fname]); !ok1 {
+				if ok1, d1 := c.accept(prelude + pl.standalone(printed, per)); !ok1 {
 					blamed = true
 					rep.Fail(mbt.Failure{Signature: "C08|build+print|llvm-as rejects|" + diagClass(d1),
 						What: fmt.Sprintf("llvm-as rejects the printed function built from %s: %s", pl.describe, diagClass(d1)),
@@ -280,7 +281,7 @@ func (c *checker) funcBatch(vs []vector, base int) {
 			if !alive[i] {
 				continue
 			}
-			got := tokens(per[pl.fname])
+			got := tokens(pl.chunk(printed, per))
 			if d := firstDiff(got, refToks[i]); d >= 0 {
 				rep.Fail(mbt.Failure{Signature: "C08|build+print|numbering|" + c.blame(pl, refToks[i], got, d),
 					What: fmt.Sprintf("built %s prints identifiers %v, LLVM numbering is %v", pl.describe, got, refToks[i]),
@@ -357,6 +358,10 @@ func (c *checker) funcBatch(vs []vector, base int) {
 			}
 			pobjs[i] = obj
 			okPlan[i] = true
+			if detail := pl.checkCompanions(m, f, obj); detail != "" {
+				rep.Fail(mbt.Failure{Signature: "C08|parse|binding|blockaddress of a block, " + modeNames[mode] + " numbering",
+					What: fmt.Sprintf("%s rendering of %s: %s", modeNames[mode], pl.describe, detail), Case: caseOfText(vs[i:i+1], "parse", prelude+pl.render(mode))})
+			}
 			if kind, detail := pl.checkBinding(obj); kind != "" {
 				rep.Fail(mbt.Failure{Signature: "C08|parse|binding|use of " + kind + ", " + modeNames[mode] + " numbering",
 					What: fmt.Sprintf("%s rendering of %s: %s", modeNames[mode], pl.describe, detail), Case: caseOfText(vs[i:i+1], "parse", prelude+pl.render(mode))})
@@ -393,7 +398,7 @@ func (c *checker) funcBatch(vs []vector, base int) {
 			if !okPlan[i] {
 				continue
 			}
-			got := tokens(per[pl.fname])
+			got := tokens(pl.chunk(out, per))
 			if d := firstDiff(got, refToks[i]); d >= 0 {
 				rep.Fail(mbt.Failure{Signature: "C08|parse+print|numbering|" + c.blame(pl, refToks[i], got, d),
 					What: fmt.Sprintf("%s rendering of %s prints identifiers %v after parsing, LLVM numbering is %v", modeNames[mode], pl.describe, got, refToks[i]),
@@ -441,6 +446,16 @@ func (c *checker) blame(pl *plan, ref, got []string, d int) string {
 	want := "(end)"
 	if d < len(ref) {
 		want = ref[d]
+	}
+	// a difference inside the companions: the address of a block taken from outside its function
+	refText := pl.render(modeExplicit)
+	per := splitFuncs(refText)
+	nu, nf := len(tokens(per["u."+pl.fname])), len(tokens(per[pl.fname]))
+	if d < nu {
+		return "blockaddress in an earlier function names another block"
+	}
+	if d >= nu+nf {
+		return "blockaddress in a global initialiser names another block"
 	}
 	for _, it := range pl.flat {
 		if !it.scaffold && it.num >= 0 && it.ident() == want {
@@ -554,13 +569,18 @@ type modObj interface {
 // modNames gives every definition its concrete name: named definitions are
 // called after their kind and their ordinal among the definitions of that kind
 // (so that the printed text depends on the group contents only).
-func modNames(src []srcEnt) []string {
+func modNames(v vector) []string {
+	src := v.Src
 	ord := map[string]int{}
 	out := make([]string, len(src))
 	for i, e := range src {
 		ord[e.Kind]++
 		if e.Name != "" {
 			out[i] = e.Kind[:2] + strconv.Itoa(ord[e.Kind])
+			if v.Names == "numeral" {
+				// quoted all-digit names: @"0", @"1", @"00", @"42" are names, not numbers
+				out[i] = numeralName(i)
+			}
 		}
 	}
 	return out
@@ -592,12 +612,12 @@ const modPrelude = "@h.base = global i32 0\ndefine void ()* @h.resolver() {\n\tr
 
 // modText renders the definitions in the given order with the given numbers, then the uses.
 func modText(v vector, order []int, num []int) string {
-	names := modNames(v.Src)
+	names := modNames(v)
 	var sb strings.Builder
 	sb.WriteString(modPrelude)
 	ident := func(i int) string {
 		if names[i] != "" {
-			return "@" + names[i]
+			return "@" + quoteName(names[i])
 		}
 		return "@" + strconv.Itoa(num[i])
 	}
@@ -642,7 +662,7 @@ func modDefTokens(text string) []string {
 }
 
 // modUseTokens lists the initialisers of the use globals u1..un.
-var reUse = regexp.MustCompile(`(?m)^@u(\d+) = global [^@\n]*(@[\w.]+)`)
+var reUse = regexp.MustCompile(`(?m)^@u(\d+) = global [^@\n]*(@"[^"\n]*"|@[\w.]+)`)
 
 func modUseTokens(text string, n int) []string {
 	out := make([]string, n)
@@ -689,7 +709,7 @@ func (c *checker) modVectors(vs []vector) {
 			}
 			c.modLLVM++
 		}
-		names := modNames(v.Src)
+		names := modNames(v)
 		refDefs := modDefTokens(ref)
 		refUses := modUseTokens(ref, len(v.Src))
 		// LLVM's own printed numbering, for a seeded sample in quick and for all in thorough
@@ -1157,16 +1177,20 @@ func Run(tier, replay string) {
 	}
 	allForms := `{"short", "long", "longva", "bitcast", "asm", "tail", "addrspace"}`
 	otherForms := `{"long", "longva", "bitcast", "asm", "tail", "addrspace"}`
+	bothNames := `{"alpha", "numeral"}`
 	if tier == "quick" {
 		// all module shapes <= 4; all one-block functions with <= 2 instructions (short callee form);
-		// all one-block functions with <= 1 instruction in every other callee form; random deeper ones
+		// all one-block functions with <= 1 instruction in every other callee form, and with numeral
+		// names; all module shapes <= 3 with numeral names; random deeper ones
 		emit("exhaustive", map[string]string{"MaxBlocks": "1", "MaxInsts": "2"}, "", 0)
 		emit("forms", map[string]string{"Kinds": `{"func"}`, "MaxBlocks": "1", "MaxInsts": "1", "Forms": otherForms}, "", 0)
-		emit("random", map[string]string{"Kinds": `{"func"}`, "MaxBlocks": "3", "MaxInsts": "2", "Forms": allForms}, "num=14", 5)
+		emit("numerals", map[string]string{"MaxBlocks": "1", "MaxInsts": "1", "MaxSrc": "3", "NameStyles": `{"numeral"}`}, "", 0)
+		emit("random", map[string]string{"Kinds": `{"func"}`, "MaxBlocks": "3", "MaxInsts": "2", "Forms": allForms, "NameStyles": bothNames}, "num=14", 5)
 	} else {
 		emit("exhaustive", map[string]string{"MaxBlocks": "2", "MaxInsts": "1", "Forms": `{"short", "long"}`}, "", 0)
 		emit("exhaustive1", map[string]string{"Kinds": `{"func"}`, "MaxBlocks": "1", "MaxInsts": "2", "Forms": allForms}, "", 0)
-		emit("random", map[string]string{"Kinds": `{"func"}`, "MaxBlocks": "3", "MaxInsts": "2", "Forms": allForms}, "num=60", 5)
+		emit("numerals", map[string]string{"MaxBlocks": "1", "MaxInsts": "2", "MaxSrc": "3", "NameStyles": `{"numeral"}`}, "", 0)
+		emit("random", map[string]string{"Kinds": `{"func"}`, "MaxBlocks": "3", "MaxInsts": "2", "Forms": allForms, "NameStyles": bothNames}, "num=60", 5)
 	}
 	// de-duplicate (simulation repeats shapes)
 	seen := map[string]bool{}
